@@ -663,6 +663,9 @@ impl Drop for SimStream {
 impl futures::Stream for SimStream {
     type Item = u32;
     fn poll_next(self: Pin<&mut Self>, cx: &mut std::task::Context<'_>) -> std::task::Poll<Option<u32>> {
+        if w().prog.mark_on_stream_poll == Some(self.s) {
+            rt::kernel::sweep_mark();
+        }
         rt::kernel::point();
         let world = w();
         let st = &mut world.streams[self.s];
